@@ -89,9 +89,10 @@ func C13(ctx *core.Ctx) {
 		}
 		fctx := fn.Params[1]
 		nwait := 0
-		var visit func(f *ssa.Function, fctxV ssa.Value, depth int)
+		var visit func(f *ssa.Function, env dEnv, depth int)
 		seen := map[*ssa.Function]bool{}
-		visit = func(f *ssa.Function, fctxV ssa.Value, depth int) {
+		ev := &dEval{r: r}
+		visit = func(f *ssa.Function, env dEnv, depth int) {
 			if seen[f] || depth > 3 {
 				return
 			}
@@ -111,7 +112,7 @@ func C13(ctx *core.Ctx) {
 						if st.Dir != types.RecvOnly {
 							continue
 						}
-						if how, ok := timeoutChan(r, st.Chan, fctxV); ok {
+						if how, ok := ev.timeoutChan(st.Chan, env); ok {
 							found, tIdx = how, i
 						}
 					}
@@ -170,14 +171,7 @@ func C13(ctx *core.Ctx) {
 				}
 				if c.FullName() == "(*net/http.Client).Do" {
 					nwait++
-					ok := false
-					if wc, k := CallValue(c.Common.Args[1]); k && wc.FullName() == "(*net/http.Request).WithContext" {
-						if tup, k2 := ExtractOf(wc.Common.Args[1], 0); k2 {
-							if tc, k3 := CallValue(tup); k3 && tc.FullName() == "context.WithTimeout" && isTimeoutOf(tc.Common.Args[1], fctxV) {
-								ok = true
-							}
-						}
-					}
+					ok := ev.kind(c.Common.Args[1], env) == dReq
 					ctx.Check(ok, "C13.R1", fname+" › HTTP round trip"+within(f, fn), r.IPos(in),
 						"client.Do(request.WithContext(context.WithTimeout(_, fctx.Timeout())))", "the HTTP request is not bound to a context carrying the call's timeout")
 				}
@@ -185,15 +179,11 @@ func C13(ctx *core.Ctx) {
 					if cal.Pkg != r.Pkg {
 						continue
 					}
-					// follow same-goroutine package calls that take the FContext along
-					var passed ssa.Value
-					for i, a := range c.Args() {
-						if ssax.Strip(a) == ssax.Strip(fctxV) && i < len(cal.Params) {
-							passed = cal.Params[i]
-						}
-					}
-					if passed != nil {
-						visit(cal, passed, depth+1)
+					// follow same-goroutine package calls that take the call's deadline along
+					// (the FContext, its timeout, or the context derived from it)
+					sub := ev.bind(c, cal, env)
+					if len(sub) > 0 {
+						visit(cal, sub, depth+1)
 					} else if bi.Reach[cal] != nil {
 						ctx.Violate("C13.R1", fname+" › call "+ssax.Name(cal)+" can block without the call's timeout", r.IPos(in), bi.Chain(cal))
 					}
@@ -206,7 +196,7 @@ func C13(ctx *core.Ctx) {
 				nio++
 			}
 		}
-		visit(fn, fctx, 0)
+		visit(fn, dEnv{fctx: dFCtx}, 0)
 		nio2 := 0
 		for _, o := range ctx.Obls {
 			if o.Rule == "C13.R2" && o.Status == core.Violated && strings.HasPrefix(o.Construct, fname+" › transport.") {
